@@ -610,6 +610,8 @@ def _timeout_clamp_form(ctx, f, q, al):
             return ("d",)
         return None
     sh = shape(e)
+    if sh is not None and any(not (t.startswith(f"self.{HEAP}[0].") or t == "self.seconds()") for lf, _ in dterms for t in lf[0]):
+        sh = None   # the clamped quantity is not derived from the heap head in a way this rule reads (e.g. an exact minimum over all calls)
     if sh is None or not dterms:
         ctx.note("timeout/clamp-form: return expression is not a max/min selection, clause left to timeout/bounded-by-earliest-call")
         return
